@@ -493,7 +493,121 @@ func childSvcBusy(a []string) string {
 	return "ok"
 }
 
+// svc.hookremove <children>: an object whose termination hook removes the objects it made (a parent and its children,
+// through the Service of its activation); the parent is removed — locally, then by a remote terminate.  Every hook has
+// run once, parent and children are gone, the sibling answers.  Runs in a process of its own.
+type hookParent struct {
+	lifeImpl
+	svc      bus.Service
+	children []uint32
+}
+
+func (p *hookParent) Activate(a bus.Activation, h pong.PingPongSignalHelper) error {
+	p.svc = a.Service
+	return nil
+}
+func (p *hookParent) OnTerminate() {
+	atomic.AddInt64(&p.terms, 1)
+	for _, c := range p.children {
+		p.svc.Remove(c)
+	}
+}
+
+func childSvcHookRemove(a []string) string {
+	log.SetOutput(ioutil.Discard)
+	nch, _ := strconv.Atoi(a[0])
+	addr := util.NewUnixAddr()
+	l, err := qnet.Listen(addr)
+	if err != nil {
+		return "setup-error"
+	}
+	srv, err := bus.StandAloneServer(l, bus.Yes{}, bus.PrivateNamespace())
+	if err != nil {
+		return "setup-error"
+	}
+	defer srv.Terminate()
+	service, err := srv.NewService("Probe", pong.PingPongObject(&lifeImpl{}))
+	if err != nil {
+		return "setup-error"
+	}
+	sid := service.ServiceID()
+	cl := srv.Client()
+	for _, remote := range []bool{false, true} {
+		parent := &hookParent{}
+		pid, err := service.Add(pong.PingPongObject(parent))
+		if err != nil {
+			return "setup-error:" + err.Error()
+		}
+		var kids []*lifeImpl
+		for i := 0; i < nch; i++ {
+			k := &lifeImpl{}
+			id, err := service.Add(pong.PingPongObject(k))
+			if err != nil {
+				return "setup-error:" + err.Error()
+			}
+			kids = append(kids, k)
+			parent.children = append(parent.children, id)
+		}
+		sibling := &lifeImpl{}
+		sibID, err := service.Add(pong.PingPongObject(sibling))
+		if err != nil {
+			return "setup-error:" + err.Error()
+		}
+		done := make(chan string, 1)
+		go func() {
+			if remote {
+				done <- callT(cl, sid, pid, 3, le32b(pid), 3*time.Second)
+			} else if err := service.Remove(pid); err != nil {
+				done <- "err"
+			} else {
+				done <- "reply"
+			}
+		}()
+		select {
+		case r := <-done:
+			if r != "reply" {
+				return "fail:the removal of the parent answered " + r
+			}
+		case <-time.After(4 * time.Second):
+			return "fail:the removal of an object whose hook removes other objects does not return"
+		}
+		if n := atomic.LoadInt64(&parent.terms); n != 1 {
+			return fmt.Sprintf("fail:termination-hook-of-the-parent-ran-%d-times", n)
+		}
+		for i, k := range kids {
+			if n := atomic.LoadInt64(&k.terms); n != 1 {
+				return fmt.Sprintf("fail:termination-hook-of-a-child-ran-%d-times", n)
+			}
+			if r := callT(cl, sid, parent.children[i], 100, strPayload("x"), 3*time.Second); r != "error" {
+				return "fail:a removed child answered " + r
+			}
+		}
+		if r := callT(cl, sid, pid, 100, strPayload("x"), 3*time.Second); r != "error" {
+			return "fail:the removed parent answered " + r
+		}
+		if r := callT(cl, sid, sibID, 100, strPayload("x"), 3*time.Second); r != "reply" {
+			return "fail:sibling-unreachable " + r
+		}
+		if atomic.LoadInt64(&sibling.terms) != 0 {
+			return "fail:sibling-terminated"
+		}
+		service.Remove(sibID)
+	}
+	return "ok"
+}
+
 func init() {
+	children["svc.hookremove"] = childSvcHookRemove
+	executors["svc.hookremove"] = func(a []string) string {
+		out := runChild("svc.hookremove", strings.Join(a, " "), 60*time.Second, 0)
+		if out.Result != "ok" {
+			lastFailDetail = out.Stderr
+		}
+		if out.Result == "crash-noresult" {
+			return "crash"
+		}
+		return out.Result
+	}
 	children["svc.busy"] = childSvcBusy
 	executors["svc.busy"] = func(a []string) string {
 		out := runChild("svc.busy", strings.Join(a, " "), 120*time.Second, 0)
@@ -710,6 +824,14 @@ func runC16(r *Rand, tier string, o *Out) {
 		o.Count("op:remove-busy-object")
 		if res != "ok" {
 			o.Fail("removal of a busy object: "+strings.TrimPrefix(res, "fail:"), op+" => "+res+" "+crashReason(lastFailDetail))
+		}
+	}
+	for _, n := range []int{1, 3} {
+		op := fmt.Sprintf("svc.hookremove %d", n)
+		res := o.Do("P", op, true)
+		o.Count("op:hook-removes-other-objects")
+		if res != "ok" {
+			o.Fail("removal of an object whose hook removes other objects: "+strings.TrimPrefix(res, "fail:"), op+" => "+res+" "+crashReason(lastFailDetail))
 		}
 	}
 	if life != nil {
